@@ -28,7 +28,8 @@ def main(path):
         print(json.dumps(r['violation'], indent=1, default=str)[:3000])
     if r.get('probs'):
         print('oracle problems:', r['probs'][:5])
-    if sig in sigs:
+    core = sig.split(':', 1)[1] if sig.startswith(('P1:', 'fault-free:')) else sig
+    if sig in sigs or core in sigs:
         print('VIOLATION property=%s replay=%s' % (pid, path))
         return base.EXIT_VIOLATION
     print('NOT-REPRODUCED property=%s signature=%s' % (pid, sig))
